@@ -3,6 +3,7 @@ package rules
 import (
 	"fmt"
 	"go/ast"
+	"go/constant"
 	"go/token"
 	"go/types"
 	"sort"
@@ -764,6 +765,75 @@ func skipConditions(ds *core.Describer, f *ssa.Function, target ssa.Instruction)
 		if r0 {
 			skipEdge = 1
 		}
+		// a flag a helper returned (merged from constants): the tests that decide it are judged instead
+		if ups := constFlagDeciders(ifi, skipEdge); ups != nil {
+			for _, up := range ups {
+				out = append(out, skipCond{up.ifi, classifySkip(ds, up.ifi, up.edge)})
+			}
+			continue
+		}
+		out = append(out, skipCond{ifi, classifySkip(ds, ifi, skipEdge)})
+	}
+	return out
+}
+
+type upstreamIf struct {
+	ifi  *ssa.If
+	edge int
+}
+
+// constFlagDeciders: the branch tests (the negation of) a phi whose edges are all boolean constants. Returns, for every
+// edge whose constant sends control along skipEdge, the nearest branch above that edge's block together with the
+// successor that leads to it; nil when the condition is not such a flag.
+func constFlagDeciders(ifi *ssa.If, skipEdge int) []upstreamIf {
+	cond := ifi.Cond
+	neg := false
+	if u, ok := cond.(*ssa.UnOp); ok && u.Op == token.NOT {
+		cond, neg = u.X, true
+	}
+	phi, ok := cond.(*ssa.Phi)
+	if !ok {
+		return nil
+	}
+	var out []upstreamIf
+	for k, e := range phi.Edges {
+		c, ok := e.(*ssa.Const)
+		if !ok || c.Value == nil || c.Value.Kind() != constant.Bool {
+			return nil
+		}
+		val := constant.BoolVal(c.Value) != neg // the branch condition's value
+		takes := 1
+		if val {
+			takes = 0
+		}
+		if takes != skipEdge {
+			continue
+		}
+		b := phi.Block().Preds[k]
+		for depth := 0; depth < 6; depth++ {
+			if len(b.Preds) != 1 {
+				break
+			}
+			pr := b.Preds[0]
+			if up, ok := pr.Instrs[len(pr.Instrs)-1].(*ssa.If); ok {
+				edge := 0
+				if pr.Succs[1] == b {
+					edge = 1
+				}
+				out = append(out, upstreamIf{up, edge})
+				break
+			}
+			b = pr
+		}
+	}
+	if out == nil {
+		out = []upstreamIf{}
+	}
+	return out
+}
+
+func classifySkip(ds *core.Describer, ifi *ssa.If, skipEdge int) string {
+	{
 		c := core.DecodeCond(ds, ifi)
 		kind := ""
 		switch {
@@ -806,9 +876,8 @@ func skipConditions(ds *core.Describer, f *ssa.Function, target ssa.Instruction)
 				}
 			}
 		}
-		out = append(out, skipCond{ifi, kind})
+		return kind
 	}
-	return out
 }
 
 // checkSkipConditions: in the loop around the scheduling call, every branch that decides whether the call
